@@ -192,3 +192,40 @@ func (w *Writer) Durable() []byte {
 	}
 	return w.Buf
 }
+
+// SeekReader is a stored file that can also be repositioned (an *os.File, a
+// bytes.Reader): a decoder handed such a stream at some offset must read from
+// there - what lies before the offset is somebody else's data.
+type SeekReader struct {
+	Data  []byte
+	Pos   int64
+	Seeks int
+}
+
+func (r *SeekReader) Read(p []byte) (int, error) {
+	if r.Pos >= int64(len(r.Data)) {
+		return 0, io.EOF
+	}
+	n := copy(p, r.Data[r.Pos:])
+	r.Pos += int64(n)
+	return n, nil
+}
+
+func (r *SeekReader) Seek(offset int64, whence int) (int64, error) {
+	r.Seeks++
+	var base int64
+	switch whence {
+	case io.SeekStart:
+	case io.SeekCurrent:
+		base = r.Pos
+	case io.SeekEnd:
+		base = int64(len(r.Data))
+	default:
+		return 0, errors.New("simio: invalid whence")
+	}
+	if base+offset < 0 {
+		return 0, errors.New("simio: negative position")
+	}
+	r.Pos = base + offset
+	return r.Pos, nil
+}
